@@ -42,6 +42,10 @@ type failoverStatus struct {
 	failover  failover
 	timer     *time.Timer
 	witnesses map[string]struct{}
+	// electing is set while a new leader is being selected. Until that
+	// selection is applied the reported leader is still the current one, and
+	// reports about it must not add up to another failover.
+	electing bool
 }
 
 func newFailoverStatus(f failover) *failoverStatus {
@@ -58,6 +62,12 @@ func newFailoverStatus(f failover) *failoverStatus {
 func (f *failoverStatus) report(ctx context.Context, witness string) *status.Status {
 	f.mu.Lock()
 
+	if f.electing {
+		// The reported leader is already being replaced.
+		f.mu.Unlock()
+		return nil
+	}
+
 	f.witnesses[witness] = struct{}{}
 	leaderFailed := len(f.witnesses) > f.failover.Quorum()
 
@@ -68,8 +78,13 @@ func (f *failoverStatus) report(ctx context.Context, witness string) *status.Sta
 		// The witnesses referred to the leader that is being replaced, so
 		// forget them.
 		f.witnesses = make(map[string]struct{})
+		f.electing = true
 		f.mu.Unlock()
-		return f.failover.Failover(ctx)
+		st := f.failover.Failover(ctx)
+		f.mu.Lock()
+		f.electing = false
+		f.mu.Unlock()
+		return st
 	}
 
 	if f.timer != nil {
